@@ -8,8 +8,12 @@ from .interp import Coro, CtxMgr, GenExp
 
 
 class ConcreteIter:
-    def __init__(self, items):
+    """iterable of known items; oneshot=True: a true ITERATOR (generator, iter(), map()) - iterating it exhausts it, a second
+    iteration yields nothing"""
+
+    def __init__(self, items, oneshot=False):
         self.items = list(items)
+        self.oneshot = oneshot
 
 
 class NativeObj:
